@@ -15,7 +15,8 @@ Three parts:
       M  the same trees after one typed mutation (swap operand types, drop/add a call argument, rename a reference,
          use an undefined attribute, untyped parameters),
       T  token-level mutations of /repo/tests/should_ok/*.er, /repo/tests/should_err/*.er, /repo/examples/*.er,
-      L  layout stress (definitions split over lines after gaps of blank lines) and size stress (and/or far into the code);
+      L  layout stress (definitions split over lines after gaps of blank lines);
+      K  user-class templates: 2-3 classes sharing method/attribute names, used on receivers of every kind (mostly ill-typed);
     allowed outcomes: success or ordinary diagnostics. Panics, 'this is a bug of the Erg compiler', 'This may be a bug of
     Erg compiler', aborts, stack overflows, timeouts are violations unless they fall in the class of a listed finding
     (failure signature AND structural feature, as in checks/c01.py).
@@ -434,6 +435,38 @@ def corpus_files():
     return out
 
 
+def class_programs(r, n):
+    """ill-typed (mostly) programs over 2-3 user classes that share method/attribute names with different arities and types:
+    calls and attribute accesses of those names on receivers of every scalar type, on instances of the other class, on lists,
+    with wrong arity (the method-resolution / ambiguity diagnostics of inquire.rs)"""
+    header = ("C = Class { .x = Int }\nC.\n    foo self = self.x\n    bar self, k: Int = self.x + k\n"
+              "D = Class { .y = Str }\nD.\n    foo self, z: Int = self.y + str z\n    bar self = self.y\n")
+    third = "E = Class { .x = Str; .n = Nat }\nE.\n    foo self, a: Str, b: Str = a + b + self.x\n    baz self = self.n\n"
+    insts = 'c = C.new { .x = 1 }\nd = D.new { .y = "s" }\n'
+    recv = ["1", '"s"', "True", "1.5", "[1, 2]", "c", "d", "None", "(1, 2)", "C", "-3"]
+    names = ["foo", "bar", "x", "y", "baz", "n", "nope"]
+    out = []
+    for i in range(n):
+        with_e = r.chance(1, 2)
+        src = header + (third if with_e else "") + insts + ('e = E.new { .x = "t"; .n = 2 }\n' if with_e else "")
+        uses = []
+        if i == 0:
+            # every scalar receiver with the name both classes define, in one program per run
+            uses = [f"r{k} = {rv}.foo()" for k, rv in enumerate(recv[:5])]
+        if i == 1:
+            # one well-typed program per run: the class machinery itself must check and compile
+            out.append((f"k{i}", src + 'print! c.foo(), c.bar(2), d.foo(3), d.bar()\n', ["classes", "well-typed"]))
+            continue
+        for k in range(2 + r.below(3)):
+            rv = r.pick(recv + (["e"] if with_e else []))
+            nm = r.pick(names)
+            form = r.below(6)
+            use = [f"{rv}.{nm}()", f"{rv}.{nm}(1)", f'{rv}.{nm}(1, "a")', f"{rv}.{nm}", f'{rv}.{nm} "a"', f"{rv}.{nm}(c)"][form]
+            uses.append(f"print! {use}" if r.chance(1, 2) else f"u{k} = {use}")
+        out.append((f"k{i}", src + "\n".join(uses) + "\n", ["classes"] + (["three-classes"] if with_e else [])))
+    return out
+
+
 def layout_programs(r, n):
     """well-formed programs that stress the line table: definitions whose body starts on a later line, after gaps of blank lines"""
     out = []
@@ -685,6 +718,8 @@ def run(ctx):
         tok_ops[op] = tok_ops.get(op, 0) + 1
         progs.append((f"t{i}", ms, ["tok:" + op, "file:" + os.path.relpath(f, core.REPO)], "T"))
     progs += [(a, b, c, "L") for a, b, c in layout_programs(fraggen.Rng(ctx.seed * 577 + 3), nL)]
+    nK = 80 if thorough else 5
+    progs += [(a, b, c, "K") for a, b, c in class_programs(fraggen.Rng(ctx.seed * 4099 + 11), nK)]
     # corpus: witnesses of the listed findings and minimised past crashes
     for cid, inp in core.corpus_rows("C07"):
         m = re.match(r'^\(src "(.*)"\)$', inp)
